@@ -95,6 +95,9 @@ class Engine:
         self.trace = []  # human readable decisions of current path
         self.decomp = {}
         self.known = {}
+        self.key_syms = []
+        self.key_consts = []
+        self.key_consts_set = set()
 
     # -- per-run ----------------------------------------------------------
     def start_run(self):
@@ -107,6 +110,7 @@ class Engine:
         self.trace = []
         self.decomp = {}
         self.known = {}
+        self.key_syms = []
 
     def _check(self, *assumptions):
         self.queries += 1
@@ -530,7 +534,7 @@ class SymInt:
         raise Unsupported("float(SymInt)")
 
     def __hash__(s):
-        return hash(concretize(s))
+        return _sym_hash(s)
 
     def __format__(s, spec):
         E.format_sites += 1
@@ -550,6 +554,40 @@ class SymInt:
 
     def bit_length(s):
         raise Unsupported("SymInt.bit_length")
+
+
+def _sym_hash(s):
+    """hash of a symbolic integer used as a dict/set key.  One decision: the key equals one of the
+    registered concrete key constants (then it hashes like that constant), or an earlier symbolic
+    key of this path (same hash), or none of them (fresh hash).  Sound as long as every concrete
+    key the code later looks up is among the registered constants (sx.register_keys / IntEnum
+    members of the shimmed modules) -- stated as an assumption of the obligations using it."""
+    v = z3.simplify(s.e)
+    if z3.is_int_value(v):
+        return hash(v.as_long())
+    for t, h in E.key_syms:
+        if t.e.get_id() == s.e.get_id():
+            return h
+    consts = E.key_consts
+    opts = [s.e == c for c in consts] + [s.e == t.e for t, _ in E.key_syms]
+    opts.append(z3.And(*[z3.Not(o) for o in opts]) if opts else z3.BoolVal(True))
+    i = E.choose(opts)
+    if i < _len(consts):
+        return hash(consts[i])
+    if i < _len(opts) - 1:
+        return E.key_syms[i - _len(consts)][1]
+    h = hash(("symx-key", _len(E.key_syms)))
+    E.key_syms.append((s, h))
+    return h
+
+
+def register_keys(values):
+    """concrete integers that the code under test may use as dict/set keys (see _sym_hash)"""
+    for v in values:
+        v = _int(v)
+        if v not in E.key_consts_set:
+            E.key_consts_set.add(v)
+            E.key_consts.append(v)
 
 
 def _floordiv(a, o):
@@ -1265,6 +1303,9 @@ SHIMS = {
 }
 
 
+KEY_SEED = set()
+
+
 class shimmed:
     """context manager: inject shadowing globals into modules; restore on exit"""
 
@@ -1274,6 +1315,12 @@ class shimmed:
         self.saved = []
 
     def __enter__(self):
+        import enum
+
+        for mod in self.spec:
+            for v in list(mod.__dict__.values()):
+                if _isinstance(v, type) and issubclass(v, enum.IntEnum):
+                    KEY_SEED.update(_int(m) for m in v)
         for mod, names in self.spec.items():
             items = names.items() if _isinstance(names, dict) else [(n, SHIMS[n]) if _isinstance(n, str) else n for n in names]
             for n, obj in items:
@@ -1526,13 +1573,14 @@ def _innermost_in_vf(tb):
         last = tb
         tb = tb.tb_next
     fn = last.tb_frame.f_code.co_filename if last else ""
-    return "/vf/" in fn and "/props/" not in fn
+    return "/vf/" in fn and "/props/" not in fn and not fn.endswith("twinbuf.py") and not fn.endswith("model.py")
 
 
 def explore(fn, max_paths=200000, max_seconds=600.0, stop_on_violation=True, seed=0, max_decisions=600, keep_samples=3, max_violations=8, path_seconds=120):
     """run harness fn() once per feasible path"""
     E.mode = "sym"
     E.reset_all(seed=seed, max_decisions=max_decisions)
+    register_keys(sorted(KEY_SEED))
     res = Result()
     t0 = time.perf_counter()
     seen_viol = set()
@@ -1708,6 +1756,72 @@ def _symbytes_decode(self, encoding="utf-8", errors="strict"):
 
 
 SymBytes.decode = _symbytes_decode
+
+
+def _sb_endswith(self, suffix):
+    p = _bytes(suffix)
+    n = _len(p)
+    if not bool(self.length >= n):
+        return False
+    L = self.length
+    return self.slice(L - n, L) == p
+
+
+def _sb_rstrip(self, chars=None):
+    ws = _bytes(chars) if chars is not None else b" \t\n\r\x0b\x0c"
+    n = _len(self)
+    while n > 0:
+        c = self.byte(n - 1)
+        if truth(Or(*[c == w for w in ws])):
+            n -= 1
+        else:
+            break
+    return self.slice(0, n)
+
+
+def _sb_lstrip(self, chars=None):
+    ws = _bytes(chars) if chars is not None else b" \t\n\r\x0b\x0c"
+    n = _len(self)
+    k = 0
+    while k < n:
+        c = self.byte(k)
+        if truth(Or(*[c == w for w in ws])):
+            k += 1
+        else:
+            break
+    return self.slice(k, n)
+
+
+def _sb_split(self, sep=None, maxsplit=-1):
+    if sep is None or _len(sep) != 1:
+        raise Unsupported("SymBytes.split with this separator")
+    s0 = sep[0]
+    n = _len(self)
+    out, start, k = [], 0, 0
+    while k < n and (maxsplit < 0 or _len(out) < maxsplit):
+        if truth(self.byte(k) == s0):
+            out.append(self.slice(start, k))
+            start = k + 1
+        k += 1
+    out.append(self.slice(start, n))
+    return out
+
+
+SymBytes.endswith = _sb_endswith
+SymBytes.rstrip = _sb_rstrip
+SymBytes.lstrip = _sb_lstrip
+SymBytes.strip = lambda self, chars=None: _sb_lstrip(_sb_rstrip(self, chars), chars)
+SymBytes.split = _sb_split
+
+
+def _sb_partition(self, sep):
+    parts = _sb_split(self, sep, 1)
+    if _len(parts) == 2:
+        return parts[0], SymBytes.of(sep), parts[1]
+    return parts[0], b"", b""
+
+
+SymBytes.partition = _sb_partition
 
 
 class SymKeyDict:
